@@ -468,6 +468,23 @@ pub fn list(r: &mut Rng) -> Vec<String> {
 /// with the variable's typed dictionary and, rarely, a long value.
 pub fn value_for(r: &mut Rng, var: usize) -> String {
     match r.below(64) {
+        // a string literal of the library's own summary code, alone or around a word
+        19 => {
+            let lits: Vec<&'static str> = crate::corpus::literal_strs(&["summary", "pkgname", "pkgpath", "depend", "dewey"])
+                .into_iter()
+                .filter(|s| s.len() <= 40 && !s.contains(|c| c == '\n' || c == '\r'))
+                .collect();
+            if lits.is_empty() {
+                return value(r);
+            }
+            let l = lits[r.below(lits.len())];
+            match r.below(4) {
+                0 => l.to_string(),
+                1 => format!("{l}{}", pk(r, &WORDS)),
+                2 => format!("{}{l}", pk(r, &WORDS)),
+                _ => format!("{l}={l}"),
+            }
+        }
         0..=17 => typed_value(r, var),
         18 => long_text(r, 1200),
         _ => value(r),
